@@ -2,7 +2,7 @@ import argparse, os, sys
 from . import common
 
 MODULES = {
-    "C01": "c01", "C02": "c02", "C03": "c03", "C05": "c05", "C06": "c06", "C07": "c07", "C08": "c08", "C09": "c09", "C10": "c10", "C11": "c11", "C04": "alloc_c04", "C12": "alloc_c12", "C13": "c13", "C15": "c15",
+    "C01": "c01", "C02": "c02", "C03": "c03", "C05": "c05", "C06": "c06", "C07": "c07", "C08": "c08", "C09": "c09", "C10": "c10", "C11": "c11", "C04": "alloc_c04", "C12": "alloc_c12", "C13": "c13", "C14": "c14", "C15": "c15", "C16": "c16", "C17": "c17", "C18": "c18", "C19": "c19", "C20": "c20",
 }
 
 def main():
